@@ -2,7 +2,7 @@
 import ast
 import re
 
-from ..core.program import norm, own_nodes, own_statements
+from ..core.program import pos, norm, own_nodes, own_statements
 from ..core.world import world
 from ..rules import generic as G
 from ..rules import ownership as OW
@@ -154,7 +154,7 @@ def rule_escape(ctx):
                 name = par.targets[0].id
                 uses = []
                 for x in own_nodes(f.node):
-                    if isinstance(x, ast.Name) and x.id == name and isinstance(x.ctx, ast.Load) and x.lineno >= par.lineno:
+                    if isinstance(x, ast.Name) and x.id == name and isinstance(x.ctx, ast.Load) and pos(x) >= pos(par):
                         st = x
                         while not isinstance(st, ast.stmt):
                             st = st._parent
